@@ -110,11 +110,45 @@ FLAGS = {"anonymize-ips", "anonymize-passwords", "undo", "preserve-private-addre
 SHORT = {v: k for k, v in LONG.items()}
 
 
-def spell(rng, opt, value, place, other_value=None):
+_LONG_OPTS = {}
+
+
+def long_options(nc):
+    """The long option names of the tree under test, read from its own --help (for unambiguous abbreviations)."""
+    key = id(nc)
+    if key not in _LONG_OPTS:
+        buf = io.StringIO()
+        try:
+            with contextlib.redirect_stdout(buf), contextlib.redirect_stderr(io.StringIO()):
+                nc.cli.main(["--help"])
+        except SystemExit:
+            pass
+        except Exception:
+            pass
+        import re
+
+        _LONG_OPTS[key] = sorted(set(re.findall(r"(?<![\w-])--([a-z][a-z-]+)", buf.getvalue())))
+    return _LONG_OPTS[key]
+
+
+def abbreviate(rng, opt, all_opts):
+    """A proper prefix of --opt that argparse resolves to it, or None."""
+    if opt not in all_opts:
+        return None
+    for n in range(1, len(opt)):
+        pre = opt[:n]
+        if sum(1 for o in all_opts if o.startswith(pre)) == 1:
+            return "--" + opt[:rng.randint(n, len(opt) - 1)] if n < len(opt) else None
+    return None
+
+
+def spell(rng, opt, value, place, other_value=None, all_opts=()):
     """Return (argv_part, cfg_entries) for one option in the requested place."""
     argv, cfg = [], []
     use_short = opt in SHORT and rng.random() < 0.5
     name = ("-" + SHORT[opt]) if use_short else ("--" + opt)
+    if not use_short and all_opts and rng.random() < 0.25:
+        name = abbreviate(rng, opt, all_opts) or name
     if opt in FLAGS:
         if place in ("cli", "both"):
             argv.append(name)
@@ -122,8 +156,13 @@ def spell(rng, opt, value, place, other_value=None):
             cfg.append((opt, "true"))
         return argv, cfg
     if place in ("cli", "both"):
-        if not use_short and rng.random() < 0.3:
+        r = rng.random()
+        if not use_short and r < 0.3:
             argv.append("%s=%s" % (name, value))
+        elif use_short and r < 0.25 and str(value) and not str(value).startswith("-"):
+            argv.append("%s%s" % (name, value))       # -n65001
+        elif use_short and r < 0.35:
+            argv.append("%s=%s" % (name, value))      # -n=65001
         else:
             argv += [name, str(value)]
     if place == "cfg":
@@ -133,13 +172,25 @@ def spell(rng, opt, value, place, other_value=None):
     return argv, cfg
 
 
-def build(rng, options, places, wd, tag, conflicts=None):
+def build(rng, options, places, wd, tag, conflicts=None, all_opts=()):
     """options: ordered dict name -> value (flags: True). Returns argv (with -c if needed)."""
-    argv, cfg = [], []
+    parts, cfg = [], []
     for opt, val in options.items():
-        a, c = spell(rng, opt, val, places.get(opt, "cli"), (conflicts or {}).get(opt))
-        argv += a
+        a, c = spell(rng, opt, val, places.get(opt, "cli"), (conflicts or {}).get(opt), all_opts)
+        if a:
+            parts.append(a)
         cfg += c
+    # argparse lets single-letter flags share one dash, optionally ending in an option that takes a value: -ap, -pn 65001
+    shorts = [p for p in parts if len(p) == 1 and len(p[0]) == 2 and p[0][0] == "-" and p[0][1] in "apu"]
+    if len(shorts) >= 1 and rng.random() < 0.4:
+        valued = [p for p in parts if len(p) == 2 and len(p[0]) == 2 and p[0][0] == "-" and p[0][1] != "-"]
+        tail = rng.choice(valued) if valued and rng.random() < 0.6 else None
+        if len(shorts) >= 2 or tail is not None:
+            merged = ["-" + "".join(p[0][1] for p in shorts) + (tail[0][1] if tail else "")] + ([tail[1]] if tail else [])
+            at = parts.index(shorts[0])
+            parts = [p for p in parts if p not in shorts and p is not tail]
+            parts.insert(min(at, len(parts)), merged)
+    argv = [t for p in parts for t in p]
     if cfg:
         path = os.path.join(wd, "cfg_%s.ini" % tag)
         write_cfg(path, cfg)
@@ -155,7 +206,7 @@ def _reject(ctx, case, nc, wd):
     dump = os.path.join(wd, "map.txt")
     base = {"input": src, "output": dst}
     kind = rng.choice(["undo-no-salt", "undo-with-a", "dump-without-a", "hostbits-range", "hostbits-nonint", "missing-input",
-                       "missing-output", "no-feature"])
+                       "missing-output", "no-feature", "empty-input", "empty-output"])
     o = dict(base)
     extra = {}
     if rng.random() < 0.5:
@@ -185,6 +236,11 @@ def _reject(ctx, case, nc, wd):
     elif kind == "missing-output":
         o.pop("output")
         o.update({"anonymize-ips": True, "salt": "s1"})
+    elif kind in ("empty-input", "empty-output"):
+        # an option given with an empty value names no path: as unusable as leaving it out
+        o["input" if kind == "empty-input" else "output"] = ""
+        o.update({"salt": "s1"})
+        o.update(rng.choice([{"anonymize-ips": True}, {"anonymize-passwords": True}, {"sensitive-words": "zurich"}]))
     elif kind == "no-feature":
         o.update({"salt": "s1"})
         if rng.random() < 0.5:
@@ -201,7 +257,9 @@ def _reject(ctx, case, nc, wd):
         pass
     items = list(o.items())
     rng.shuffle(items)
-    argv = build(rng, dict(items), places, wd, "r")
+    if kind in ("empty-input", "empty-output"):
+        places["input" if kind == "empty-input" else "output"] = rng.choice(["cli", "cli", "cfg"])
+    argv = build(rng, dict(items), places, wd, "r", all_opts=long_options(nc))
     before = fsmon.snapshot(wd)
     outcome, detail, w = run_main(nc, argv, wd)
     after = fsmon.snapshot(wd)
@@ -317,7 +375,8 @@ def _equiv(ctx, case, nc, wd):
             places_desc[name] = places
             items = list(o.items())
             rng.shuffle(items)
-            argv = build(rng, dict(items), places, wd, name, conflicts=CONFLICT_VALUES if name == "conflict" else None)
+            argv = build(rng, dict(items), places, wd, name, conflicts=CONFLICT_VALUES if name == "conflict" else None,
+                         all_opts=long_options(nc))
             outcome, detail, w = run_main(nc, argv, wd)
             for kind, p in w.writes():
                 if fsmon_inside(p, src):
@@ -422,7 +481,7 @@ def _defaults(ctx, case, nc, wd):
     outs = []
     for i, o in enumerate((a, b)):
         o = dict(o, output=os.path.join(wd, "d%d" % i))
-        argv = build(rng, o, {k: rng.choice(["cli", "cfg"]) for k in o}, wd, "d%d" % i)
+        argv = build(rng, o, {k: rng.choice(["cli", "cfg"]) for k in o}, wd, "d%d" % i, all_opts=long_options(nc))
         outcome, detail, w = run_main(nc, argv, wd)
         outs.append((outcome, detail, tree_bytes(o["output"]) if os.path.exists(o["output"]) else None, argv))
     ctx.ev()
